@@ -75,8 +75,28 @@ func (v Undefined) String() string { panic("Attempted to coerce undefined value 
 func (v Null) String() string      { return "null" }
 func (v Bool) String() string      { return strconv.FormatBool(bool(v)) }
 func (v Int) String() string       { return strconv.FormatInt(int64(v), 10) }
-func (v Float) String() string     { return strconv.FormatFloat(float64(v), 'g', -1, 64) }
+func (v Float) String() string     { return formatFloat(float64(v)) }
 func (v String) String() string    { return string(v) }
+
+// formatFloat prints a float the way JavaScript's Number.toString does, so
+// that the Go and JS backends render the same text: positional notation for
+// 1e-6 <= |f| < 1e21 (no exponent, no trailing ".0") and an exponent without
+// zero padding outside that range.
+func formatFloat(f float64) string {
+	if math.IsNaN(f) || math.IsInf(f, 0) {
+		return strconv.FormatFloat(f, 'g', -1, 64)
+	}
+	if f == 0 {
+		return "0"
+	}
+	if abs := math.Abs(f); 1e-6 <= abs && abs < 1e21 {
+		return strconv.FormatFloat(f, 'f', -1, 64)
+	}
+	var s = strconv.FormatFloat(f, 'e', -1, 64)
+	var e = strings.IndexByte(s, 'e')
+	var exp = strings.TrimLeft(s[e+2:], "0")
+	return s[:e+2] + exp
+}
 
 func (v List) String() string {
 	var items = make([]string, len(v))
